@@ -478,6 +478,11 @@ func (k *secKsGen) sweep(w string, round int) {
 	}
 	k.op("q-klocked", "klocked")
 	k.op("mnemonic-right", "kmnemonic %s %s", w, hexp(right))
+	// a restore from the wallet's own sentence with one mis-typed word: refused, and the refusal must not echo the sentence
+	kinds := []string{"cap", "comma", "num", "upper"}
+	kind := kinds[(round+k.r.Intn(2))%len(kinds)]
+	k.op("importmn-bad-"+kind, "kimportmnbad WX %s %s %s %d", hexp(right), w, kind, k.r.Intn(12))
+	k.op("q-klocked", "klocked")
 	k.lastOK = ""
 }
 
